@@ -1,48 +1,58 @@
 """C01 — seeded runs are reproducible, whatever the process state.
 
-Model-level theorems: Props/C01.lean (stepping APIs agree; context counter enters the name only;
-set-iteration order cannot change what is written; stratification tuples are canonical).
-Tie: (i) skeleton correspondence – the event skeleton (event, clock, step) of real runs of generated
-rich programs vs the model's prediction (Driver/C08.lean, fixed-step programs); (ii) cross-history
-differential – the same program + configuration is run in fresh processes under different
-PYTHONHASHSEEDs, with the global numpy/random generators reseeded and consumed between steps, after
-0-3 earlier contexts, and through every stepping API; the canonical digest of the state table at the
-start and end of EVERY step, the final results and every draw request must be identical.
+Model-level theorems: Props/C01.lean (stepping APIs agree – run / step / take_steps / run_until / run_for / mixed drives /
+explicit step sizes; context counter enters the name only; simulations of one process do not interact; set-iteration
+order cannot change what is written; stratification tuples are canonical).
+Tie: (i) skeleton correspondence – for EVERY process history of a case the event skeleton (event, clock, step) of the real
+run vs the model's prediction for the API that drove it (Driver/C01.lean; start, step and end come from the
+CONFIGURATION; for per-simulant clocks the recomputed global steps are handed over as the schedule); (ii) cross-history
+differential – the same program + configuration is run in fresh processes under different PYTHONHASHSEEDs, with the
+global numpy/random generators reseeded and consumed between steps, after 0-3 earlier simulations (empty, different,
+the same program with another seed, interleaved step by step), through every stepping API and every route by which
+components and configuration can reach a context; the canonical digest of the state table at the start and end of
+EVERY step, the results after every step, the final results, the written result files and every draw request must be
+identical; (iii) configuration-derived clauses – step count and clock values, population size after every step
+and the draws themselves are recomputed from the case's configuration, not read back.
 """
 from __future__ import annotations
 
+import hashlib
+import os
 import random
+import shutil
+import tempfile
 
 from .. import enginekit
 from ..runner import Prop
+
+MAX_U32 = 4294967295
+
+
+def _get_hash(key: str) -> int:
+    """the property's mechanism, re-stated: sha1 of the key string, reduced to a numpy seed"""
+    return int(hashlib.sha1(key.encode("utf8")).hexdigest(), 16) % MAX_U32
 
 
 class C01(Prop):
     id = "C01"
     lean_modules = ["VivModel.Props.C01"]
     build_targets = ["VivModel.Model.Engine", "VivModel.Model.Events", "VivModel.Model.Proto"]
-    driver = "C08"
+    driver = "C01"
     technique = "Lean 4 proof (induction over the run loop / permutations) of the model-level statements + cross-process differential over process histories"
     partial = ("that arbitrary user components, pandas and the interpreter introduce no other entropy cannot be a theorem; "
-               "it is explored by running each generated program under 5 process histories and comparing digests after every step")
-    n_quick = 9
+               "it is explored by running each generated program under 6 process histories and comparing digests after every step")
+    n_quick = 14
     n_thorough = 150
     workers = 3
-    case_timeout = 600
-    rule = ("each case = one generated program (CRN 0-3 keys, births, mortality via lookup+rate pipeline+modifiers, state machine, "
-            "per-simulant clocks, observers with 0-3 stratifications; both clocks) run under 5 process histories "
-            "(hash seed, global RNG noise, earlier contexts, stepping API); evaluations counts programs; "
-            "non-trivial = at least 2 steps, non-empty population, digests change between steps")
+    case_timeout = 900
+    rule = ("each case = one generated program (7 program shapes: hash / api / crn / services / results / tiny / mixed; CRN 0-3 keys of "
+            "every type, births, mortality via lookup+rate pipeline+modifiers of every callable kind from several components, state "
+            "machine with triggered and transient states, per-simulant clocks, every kind of observation and stratification, tables "
+            "from configuration data sources and an artifact, get_seed, sample_from_distribution; both clocks) run under 6 process "
+            "histories (hash seed, global RNG noise, earlier simulations incl. interleaved ones, 12 stepping APIs, 9 configuration "
+            "routes, logging); evaluations counts programs; non-trivial = at least 2 steps, non-empty population, digests change between steps")
 
-    def _histories(self, rng):
-        hs = [{"hashseed": 0, "noise": 0, "prior": 0, "mode": "run_simulation"}]
-        modes = enginekit.MODES[1:]
-        rng.shuffle(modes)
-        for k, m in enumerate(modes):
-            hs.append({"hashseed": rng.choice([1, 2, rng.randint(3, 10_000), "random"]), "noise": rng.randint(1, 10_000),
-                       "prior": rng.randint(0, 3), "mode": m})
-        return hs
-
+    # ------------------------------------------------------------------ cases
     def boundary(self):
         rng = random.Random(1)
         full = {"clock": "datetime", "step": 10, "n_steps": 4, "pop": 12, "seed": 7, "crn_keys": 2, "map_size": 10000,
@@ -53,87 +63,278 @@ class C01(Prop):
         shrink = {"clock": "datetime", "step": 0.5, "n_steps": 7, "pop": 1, "seed": 9015, "crn_keys": 0, "map_size": 100003,
                   "births": [3], "birth_phase": "time_step", "mort": None, "disease": None,
                   "stepmod": {"every": 2, "mult": 3, "vary": True}, "obs": None, "order": [3]}
-        return [{"spec": full, "histories": self._histories(rng)}, {"spec": vary, "histories": self._histories(rng)},
-                {"spec": shrink, "histories": self._histories(rng)}]
+        # an observation without additional_stratifications under configured defaults, after earlier simulations whose
+        # defaults differ (seeded C01-2: a mutable default argument shared by every simulation of a process)
+        dflt = {"clock": "simple", "step": 2, "n_steps": 3, "pop": 7, "seed": 11, "crn_keys": 0, "births": [1],
+                "mort": {"mods": 2, "scale": 48, "kinds": ["object", "partial", "lambda"]}, "disease": None, "stepmod": None,
+                "obs": {"strats": 2, "concat": False, "defaults": ["color"], "values": 2, "rich": True, "report": True}, "extras": None}
+        hist = [dict(enginekit.BASELINE),
+                {"hashseed": 1, "noise": 4, "prior": ["rich", "same", "rich"], "mode": "step", "route": "yaml", "verbosity": 0, "sim_name": None},
+                {"hashseed": 2, "noise": 6, "prior": ["same", "interleaved"], "mode": "interactive_run", "route": "update", "verbosity": 2, "sim_name": "named_by_user", "peek": True},
+                {"hashseed": "random", "noise": 9, "prior": ["interleaved", "rich"], "mode": "interactive_explicit", "route": "holder", "verbosity": 1, "sim_name": None}]
+        # every service in one program, no randomness left out; driven through every remaining API and route
+        rich = enginekit.gen_spec(random.Random(5), small=True, mode="services")
+        rich.update(clock="datetime", step=3, n_steps=3, pop=9, crn_keys=3, uid_kind="int", stepmod=None,
+                    obs={"strats": 3, "when": "time_step__cleanup", "concat": True, "defaults": ["sex"], "values": 3, "rich": True, "cfg_excl": True, "report": True})
+        hist2 = [dict(enginekit.BASELINE)] + [
+            {"hashseed": hs, "noise": 3 * k + 1, "prior": pr, "mode": m, "route": rt, "verbosity": 0, "sim_name": None, "peek": k % 2 == 0}
+            for k, (hs, pr, m, rt) in enumerate([(1, [], "run_backup", "positional"), (2, ["empty"], "interactive_mixed", "yaml_override"),
+                                                 ("random", [], "interactive_for", "nested_add"), (3, ["same"], "interactive_take_n", "split"),
+                                                 (5, [], "run", "tree")])]
+        return [{"spec": full, "histories": enginekit.gen_histories(rng, full)}, {"spec": vary, "histories": enginekit.gen_histories(rng, vary)},
+                {"spec": shrink, "histories": enginekit.gen_histories(rng, shrink)}, {"spec": dflt, "histories": hist},
+                {"spec": rich, "histories": hist2}]
 
     def generate(self, rng: random.Random, i: int, tier: str):
-        return {"spec": enginekit.gen_spec(rng), "histories": self._histories(rng)}
+        mode = enginekit.SPEC_MODES[i % len(enginekit.SPEC_MODES)]
+        spec = enginekit.gen_spec(rng, small=(tier == "quick"), mode=mode)
+        return {"spec": spec, "histories": enginekit.gen_histories(rng, spec)}
 
     def shrink(self, case):
         s = case["spec"]
-        for k in ("obs", "disease", "mort", "stepmod", "extras"):
+        if len(case["histories"]) > 2:
+            for i in range(1, len(case["histories"])):
+                yield dict(case, histories=[case["histories"][0], case["histories"][i]])
+        for i, h in enumerate(case["histories"]):
+            if i and (h.get("prior") or h.get("route", "args") != "args" or h.get("verbosity") or h.get("peek")):
+                hs = list(case["histories"])
+                hs[i] = dict(h, prior=h["prior"][:-1] if h.get("prior") else [], route="args" if not h.get("prior") else h.get("route", "args"),
+                             verbosity=0, peek=False)
+                yield dict(case, histories=hs)
+        for k in ("obs", "disease", "mort", "stepmod", "extras", "pop_extra", "newborn"):
             if s.get(k):
                 yield dict(case, spec=dict(s, **{k: None}))
         if s["n_steps"] > 1:
             yield dict(case, spec=dict(s, n_steps=s["n_steps"] - 1))
-        if len(case["histories"]) > 2:
-            for i in range(1, len(case["histories"])):
-                yield dict(case, histories=case["histories"][:i] + case["histories"][i + 1:])
 
+    # ------------------------------------------------------------------ implementation side
     def run_impl(self, case):
-        jobs = [({"spec": case["spec"], "mode": h["mode"], "noise": h["noise"], "prior_contexts": h["prior"], "log_draws": True},
-                 h["hashseed"]) for h in case["histories"]]
-        res = enginekit.run_workers(jobs, parallel=5)
-        out = []
-        for r in res:
-            d = sorted(map(tuple, r.get("draws") or []))
-            out.append({"error": r.get("error"), "digests": r.get("digests"), "results": r.get("results"),
-                        "final_table": r.get("final_table"), "events": r.get("events"), "n_draws": len(d),
-                        "draws": __import__("hashlib").sha1(repr(d).encode()).hexdigest()[:12], "name": r.get("context_name"),
-                        "trace": (r.get("trace") or "")[-400:] if r.get("error") else ""})
-        return {"runs": out}
+        spec = dict(case["spec"])
+        d = tempfile.mkdtemp(prefix="vc01-")
+        try:
+            if (spec.get("extras") or {}).get("art"):
+                from .. import components
+                spec["artifact_path"] = components.write_artifact(os.path.join(d, "artifact.hdf"))
+            jobs = [({"spec": spec, "mode": h["mode"], "route": h.get("route", "args"), "noise": h["noise"], "prior": h["prior"],
+                      "verbosity": h.get("verbosity", 0), "sim_name": h.get("sim_name"), "peek": h.get("peek", False), "log_draws": True,
+                      "report_dir": os.path.join(d, f"report{i}")}, h["hashseed"]) for i, h in enumerate(case["histories"])]
+            res = enginekit.run_workers(jobs, parallel=6)
+            out = []
+            for r in res:
+                dr = r.get("draws") or []
+                s = sorted(tuple(x[:6]) for x in dr)
+                out.append({"error": r.get("error"), "digests": r.get("digests"), "results": r.get("results"), "measures": r.get("measures"),
+                            "final_table": r.get("final_table"), "events": r.get("events"), "n_draws": len(s), "ret": r.get("ret"),
+                            "draws": hashlib.sha1(repr(s).encode()).hexdigest()[:12], "name": r.get("context_name"),
+                            "report": r.get("report"), "clock": r.get("clock"),
+                            "trace": (r.get("trace") or "")[-500:] if r.get("error") else ""})
+            return {"runs": out, "draw_check": self._draw_check(spec, (res[0].get("draws") or [])) if not res[0].get("error") else None}
+        finally:
+            shutil.rmtree(d, ignore_errors=True)
 
-    # skeleton correspondence on the baseline history (fixed-step programs only)
+    @staticmethod
+    def _draw_check(spec, draws):
+        """recompute logged draws from the CONFIGURATION: block = RandomState(sha1(key_clock_additional_seed)), position =
+        the simulant's label without CRN, the request position for a CRN-initialising stream (other CRN requests need the
+        index map and are C02 / C03 business)"""
+        import numpy as np
+        import pandas as pd
+        seed = str(spec["seed"]) + (str(spec["additional_seed"]) if spec.get("additional_seed") is not None else "")
+        size = max(spec.get("map_size", 100_000), 10 * spec["pop"])
+        checked, bad, cache = 0, [], {}
+        for key, clock, addk, n, _ih, _vh, init, labels, values in draws:
+            if labels is None or not n or (spec["crn_keys"] and not init):
+                continue
+            t = str(pd.Timestamp(int(clock))) if spec["clock"] == "datetime" else clock
+            k = "_".join([key, t, addk, seed])
+            if k not in cache:
+                cache[k] = np.random.RandomState(seed=_get_hash(k)).random_sample(size)
+            blk = cache[k]
+            want = [float(blk[p]).hex() for p in (range(n) if init else labels)]
+            checked += 1
+            if want != values and len(bad) < 3:
+                j = next(j for j, (a, b) in enumerate(zip(want, values)) if a != b)
+                bad.append(f"stream {key} at {t} key {addk}: simulant {labels[j]} drew {values[j]}, configuration gives {want[j]}")
+        return {"checked": checked, "bad": bad}
+
+    # ------------------------------------------------------------------ configuration arithmetic (no framework object involved)
+    @staticmethod
+    def _ticks(spec):
+        """start, configured step, stop as integer ticks (ns for the datetime clock)"""
+        from .. import components
+        a, h, b = components.start_time(spec), components.step_size(spec), components.stop_time(spec)
+        f = (lambda x: int(x.value)) if spec["clock"] == "datetime" else int
+        return f(a), f(h), f(b)
+
+    @staticmethod
+    def _expected_rows(spec, k, tag):
+        """rows of the state table when the probe looks in step k (0-based): births of every earlier step, and this step's at `metrics`"""
+        b = spec["births"]
+        done = k + 1 if tag == "metrics" else k
+        return spec["pop"] + sum(b[j % len(b)] for j in range(done)) if b else spec["pop"]
+
+    # ------------------------------------------------------------------ model side: one block of lines per history
+    def _drive_lines(self, spec, h, run):
+        from .. import components
+        start, step, stop = self._ticks(spec)
+        n = components.expected_steps(spec)
+        m = h["mode"]
+        if m in ("run_simulation", "run", "run_backup"):
+            return ["run"]
+        if m in ("step", "interactive_step", "interactive_take"):
+            return ["loop"]
+        if m == "interactive_take_n":
+            return [f"steps {n}"] if n is not None else ["loop"]
+        if m in ("interactive_until", "interactive_run"):
+            return [f"until {stop}"]
+        if m == "interactive_for":
+            return [f"for {stop - start}"]
+        if m == "interactive_mixed":
+            return ["steps 1"] + (["steps 2"] if n is not None and n >= 3 else []) + [f"until {stop}"]
+        if m == "interactive_explicit":
+            return [f"xloop {step}"]
+        if m == "interactive_pairs":
+            return ["chunks 2"]
+        raise ValueError(m)
+
     def model_lines(self, case, obs):
-        r0 = obs["runs"][0]
-        if case["spec"].get("stepmod") or r0["error"] or not r0["events"]:
-            return []
-        ev = r0["events"]
-        t0, h = ev[0][1], ev[0][2]
-        import math
-        from .. import components  # noqa: F401  (configuration arithmetic lives there)
-        # stop as the engine sees it: first clock at which the run stopped
-        stop = ev[-1][1] if ev[-1][0] == "end" else None
-        if stop is None or h <= 0:
-            return []
-        # the run loop stops at the first clock >= configured stop; the configured stop is what the model needs. Any
-        # value in (last step start, final clock] yields the same prediction, so the final clock itself is used.
-        return ["reg time_step__prepare 0 1", "reg collect_metrics 9 2", "reg simulation_end 5 3", f"sim {t0} {h} {stop}"]
+        spec = case["spec"]
+        start, step, stop = self._ticks(spec)
+        lines = []
+        for h, r in zip(case["histories"], obs["runs"]):
+            if r["error"] or not r["events"]:
+                continue
+            ev = r["events"]
+            # per-simulant clocks: the step the clock recomputed at the end of engine step k is what the NEXT event reports;
+            # it is recomputed only with individual clocks and somebody in the table
+            sched, init = [], "n"
+            if spec.get("stepmod"):
+                prep = [e for e in ev if e[0] in ("prepare", "end")]
+                mets = [e for e in ev if e[0] == "metrics"]
+                if spec["pop"] > 0:
+                    init = str(prep[0][2])          # initialize_simulants ends with the first step_forward
+                for k in range(len(mets)):
+                    nxt = prep[k + 1][2] if k + 1 < len(prep) else None
+                    sched.append(str(nxt) if (mets[k][4] > 0 and nxt is not None) else "n")
+            lines += ([f"cfg {start} {step} {stop}", "sched " + (",".join(sched) if sched else "-"), f"init {init}"]
+                      + self._drive_lines(spec, h, r) + ["finalize", "log"])
+        return lines
 
     def compare(self, case, obs, replies):
-        t = replies[3].split()
-        if t[0] != "ok":
-            return [f"model: {replies[3][:80]}"]
-        tagof = {"time_step__prepare": "prepare", "collect_metrics": "metrics", "simulation_end": "end"}
-        mcalls = [] if t[3] == "-" else [c.split(":") for c in t[3].split(",")]
-        m = [[tagof[c[0]], int(c[3]), int(c[5])] for c in mcalls]
-        i = [[e[0], e[1], e[2]] for e in obs["runs"][0]["events"]]
-        if m != i:
-            k = next((k for k, (a, b) in enumerate(zip(i, m)) if a != b), min(len(i), len(m)))
-            return [f"event skeleton differs at #{k}: impl {i[k] if k < len(i) else None}, model {m[k] if k < len(m) else None}"]
-        return []
+        out, k = [], 0
+        for h, r in zip(case["histories"], obs["runs"]):
+            if r["error"] or not r["events"]:
+                continue
+            nd = len(self._drive_lines(case["spec"], h, r))
+            blk = replies[k:k + 5 + nd]
+            k += 5 + nd
+            if any(x.startswith(("err", "bad-op")) for x in blk):
+                out.append(f"model refuses history {h['mode']}: {blk}")
+                continue
+            want = [] if blk[-1] == "-" else [x.split(":") for x in blk[-1].split(",")]
+            tag = {"time_step__prepare": "prepare", "collect_metrics": "metrics", "simulation_end": "end"}
+            m = [[tag[a], int(b), int(c)] for a, b, c in want if a in tag]
+            i = [[e[0], e[1], e[2]] for e in r["events"]]
+            if m != i:
+                j = next((j for j, (a, b) in enumerate(zip(i, m)) if a != b), min(len(i), len(m)))
+                out.append(f"{h['mode']}: event skeleton differs at #{j}: impl {i[j] if j < len(i) else None}, model {m[j] if j < len(m) else None}")
+            if r.get("ret") is not None:
+                cnt = [x for x in blk[3:3 + nd] if x.startswith("count ")]
+                if cnt and int(cnt[-1].split()[1]) != r["ret"]:
+                    out.append(f"{h['mode']}: returned {r['ret']} steps, model {cnt[-1]}")
+        return out
 
+    # ------------------------------------------------------------------ the property on the observed behaviour
     def oracle(self, case, obs):
+        from .. import components
         f = []
+        spec = case["spec"]
         runs = obs["runs"]
         base = runs[0]
         for h, r in zip(case["histories"], runs):
-            if r["error"]:
+            if r["error"] and not self._cpython_pickle_assert(h, r):
                 f.append({"sig": "run-raised", "msg": f"history {h}: {r['error']} {r['trace']}"})
         if f:
             return f
-        for h, r in zip(case["histories"][1:], runs[1:]):
+        live = [(h, r) for h, r in zip(case["histories"], runs) if not r["error"]]
+        for h, r in live[1:]:
+            if h["mode"] in enginekit.OVERRUNNING and len(r["digests"]) > len(base["digests"]):
+                # the drive took steps beyond the end: every step the baseline took must look the same, the rest is its own business
+                k = len(base["digests"]) - 1
+                if r["digests"][:k] != base["digests"][:k]:
+                    j = next(j for j, (a, b) in enumerate(zip(r["digests"], base["digests"])) if a != b)
+                    f.append({"sig": f"state-table-differs:{h['mode']}", "msg": f"history {h} vs baseline: digest #{j} {r['digests'][j]} != {base['digests'][j]} "
+                              f"(the drive went {len(r['digests']) - len(base['digests'])} digests past the end)"})
+                continue
             if r["digests"] != base["digests"]:
                 k = next((k for k, (a, b) in enumerate(zip(r["digests"], base["digests"])) if a != b), min(len(r["digests"]), len(base["digests"])))
                 api = "api" if h["mode"] != "run_simulation" else "process"
-                f.append({"sig": f"state-table-differs:{h['mode']}",
+                by_pos = (spec.get("extras") or {}).get("ds") == "pos"      # candidate finding, see notes/agent-reports/C01.md
+                f.append({"sig": "lookup-value-column-order-depends-on-hash-seed" if by_pos else f"state-table-differs:{h['mode']}",
                           "msg": f"history {h} vs baseline: digest #{k} {r['digests'][k] if k < len(r['digests']) else None} != "
                                  f"{base['digests'][k] if k < len(base['digests']) else None} ({len(r['digests'])}/{len(base['digests'])} digests; {api})"})
-            elif r["results"] != base["results"]:
-                f.append({"sig": "results-differ", "msg": f"history {h}: results digest {r['results']} != {base['results']}"})
+            elif r["results"] != base["results"] or r["final_table"] != base["final_table"]:
+                diff = sorted(k for k in set(r["measures"] or {}) | set(base["measures"] or {}) if (r["measures"] or {}).get(k) != (base["measures"] or {}).get(k))
+                f.append({"sig": "results-differ", "msg": f"history {h}: results digest {r['results']} != {base['results']} (measures {diff})"})
             elif r["draws"] != base["draws"]:
                 f.append({"sig": "draw-requests-differ", "msg": f"history {h}: draw log {r['draws']} ({r['n_draws']}) != {base['draws']} ({base['n_draws']})"})
+            elif r["report"] != base["report"]:
+                f.append({"sig": "written-results-differ", "msg": f"history {h}: files written by report() {r['report']} != {base['report']}"})
+            elif r["clock"] != base["clock"]:
+                f.append({"sig": "final-clock-differs", "msg": f"history {h}: clock after the run {r['clock']} != {base['clock']}"})
+        # --- clauses whose expectation comes from the case's configuration / history alone
+        start, step, stop = self._ticks(spec)
+        n = components.expected_steps(spec)
+        for h, r in live:
+            # (the context's NAME may depend on the history – that is all the counter may influence; it is only tagged)
+            ev = r["events"]
+            tags = [e[0] for e in ev]
+            steps = tags.count("metrics")
+            if tags != ["prepare", "metrics"] * steps + ["end"]:
+                f.append({"sig": "event-skeleton-not-from-configuration", "msg": f"history {h['mode']}: events {tags[:12]}"})
+                continue
+            over = h["mode"] in enginekit.OVERRUNNING
+            if n is not None:
+                nh = n + (n % 2 if over else 0)          # whole pairs of steps
+                exp = [[t, start + (k // 2) * step, step] for k, t in enumerate(["prepare", "metrics"] * nh)] + [["end", start + nh * step, step]]
+                got = [e[:3] for e in ev]
+                if got != exp:
+                    j = next((j for j, (a, b) in enumerate(zip(got, exp)) if a != b), min(len(got), len(exp)))
+                    f.append({"sig": "event-skeleton-not-from-configuration",
+                              "msg": f"history {h['mode']}: event #{j} is {got[j] if j < len(got) else None}, the configuration gives {exp[j] if j < len(exp) else None} "
+                                     f"({steps} steps taken, {nh} configured)"})
+            else:
+                # per-simulant clocks: the run starts at the configured start, no step starts at or after the end, the run reaches the end
+                late = [e for e in ev if e[0] == "prepare" and e[1] >= stop]
+                if ev[0][1] != start or (late and not over) or len(late) > 1 or ev[-1][1] < stop:
+                    f.append({"sig": "loop-end-not-from-configuration", "msg": f"history {h['mode']}: start {ev[0][1]} (configured {start}), "
+                              f"last step began at {max(e[1] for e in ev if e[0] == 'prepare')}, ended at {ev[-1][1]} (configured end {stop})"})
+            k = 0
+            for e in ev:
+                if e[0] == "end":
+                    break
+                rows = self._expected_rows(spec, k, e[0])
+                if e[4] != rows:
+                    f.append({"sig": "population-size-not-from-configuration", "msg": f"history {h['mode']}: {e[4]} simulants at {e[0]} of step {k}, "
+                              f"the configuration gives {rows}"})
+                    break
+                k += e[0] == "metrics"
+            if r.get("ret") is not None:
+                pre = {"interactive_mixed": 1 + (2 if n is not None and n >= 3 else 0)}.get(h["mode"], 0)
+                if r["ret"] != steps - pre:
+                    f.append({"sig": "returned-step-count", "msg": f"history {h['mode']}: returned {r['ret']}, took {steps - pre} steps"})
+        dc = obs.get("draw_check")
+        if dc and dc["bad"]:
+            f.append({"sig": "draw-not-from-configuration", "msg": "; ".join(dc["bad"])})
         return f
+
+    @staticmethod
+    def _cpython_pickle_assert(h, r):
+        """CPython 3.12's pickler asserts when a backup holds two EMPTY buffers with the same id (protocol 5, empty numpy
+        arrays of an empty population): an interpreter defect, not vivarium's. Only `run(backup_path, …)` pickles here; the
+        history is skipped and counted in the tags (as C18 does)."""
+        return bool(h["mode"] == "run_backup" and r["error"] and r["error"].startswith("AssertionError")
+                    and "in memoize" in (r.get("trace") or "") and "pickle.py" in (r.get("trace") or ""))
 
     def nontrivial(self, case, obs):
         d = obs["runs"][0]["digests"] or []
@@ -142,17 +343,29 @@ class C01(Prop):
     def tags(self, case, obs):
         s = case["spec"]
         t = [s["clock"], f"crn{s['crn_keys']}", "pop0" if s["pop"] == 0 else "pop1" if s["pop"] == 1 else "pop+"]
-        for k in ("mort", "disease", "stepmod", "obs", "extras"):
+        for k in ("mort", "disease", "stepmod", "obs", "extras", "pop_extra", "newborn", "perm"):
             t.append(k if s.get(k) else "no-" + k)
-        t += ["mode:" + h["mode"] for h in case["histories"]]
-        t += [f"prior{h['prior']}" for h in case["histories"]]
+        o, x, d = s.get("obs") or {}, s.get("extras") or {}, s.get("disease") or {}
+        t += [f"obs:{k}" for k in ("rich", "report", "cfg_excl", "concat", "defaults", "values") if o.get(k)]
+        t += [f"extras:{k}" for k in ("cat", "tables", "ds", "art", "private", "foreign") if x.get(k)] + (["extras:late"] if x.get("late") is not None else [])
+        t += [f"disease:{k}" for k in ("excess", "trig", "transient", "back") if d.get(k)]
+        t += ["mode:" + h["mode"] for h in case["histories"]] + ["route:" + h.get("route", "args") for h in case["histories"]]
+        t += [f"prior:{p}" for h in case["histories"] for p in h["prior"]] + [f"priors{len(h['prior'])}" for h in case["histories"]]
+        t += [f"verbosity{h.get('verbosity', 0)}" for h in case["histories"]] + ["peek" for h in case["histories"] if h.get("peek")]
         t.append("births" if any(s["births"]) else "no-births")
+        t += ["name-follows-the-count" if r.get("name") == (h.get("sim_name") or f"simulation_{len(h['prior']) + 1}") else "name-other"
+              for h, r in zip(case["histories"], obs["runs"]) if not r["error"]]
+        dc = obs.get("draw_check") or {}
+        t.append("draws-recomputed" if dc.get("checked") else "draws-not-recomputed")
+        t += ["skipped:cpython-empty-buffer-pickle-assert" for h, r in zip(case["histories"], obs["runs"]) if self._cpython_pickle_assert(h, r)]
+        if (obs["runs"][0].get("report") or "").endswith(":0") or not obs["runs"][0].get("report"):
+            t.append("no-result-files")
         return t
 
     def sample_view(self, case, obs):
         return {"spec": case["spec"], "histories": case["histories"],
                 "baseline_digests": (obs["runs"][0]["digests"] or [])[:6], "results": obs["runs"][0]["results"],
-                "draw_requests": obs["runs"][0]["n_draws"]}
+                "draw_requests": obs["runs"][0]["n_draws"], "draws_recomputed": (obs.get("draw_check") or {}).get("checked")}
 
 
 PROP = C01()
